@@ -127,13 +127,18 @@ def addrRecs (lower : String → String) (c : Cache) (i : Info) (type : Nat) : L
   | none => []
   | some k => getAll lower c k type Gen.classIn
 
+/-- the repaired `_load_from_cache` (D14): `for record in reversed(cache.get_all_by_details(self._name, type_, _CLASS_IN)):
+if not record.is_expired(now): … break` — the newest-inserted key object of that name and type that has **not expired** -/
+def newestLive (lower : String → String) (c : Cache) (name : String) (type : Nat) (now : Int) : Option Rec :=
+  (getAll lower c name type Gen.classIn).reverse.find? (fun r => Gen.Lookup.load_takes (r.isExpired now))
+
 def loadSrv (lower : String → String) (c : Cache) (i : Info) (now : Int) : Info :=
-  match getByDetails lower c i.name Gen.typeSrv Gen.classIn with
+  match newestLive lower c i.name Gen.typeSrv now with
   | some r => (processRecord lower c i r now).1
   | none => i
 
 def loadTxt (lower : String → String) (c : Cache) (i : Info) (now : Int) : Info :=
-  match getByDetails lower c i.name Gen.typeTxt Gen.classIn with
+  match newestLive lower c i.name Gen.typeTxt now with
   | some r => (processRecord lower c i r now).1
   | none => i
 
@@ -141,7 +146,7 @@ def loadAddrs (lower : String → String) (c : Cache) (i : Info) (now : Int) : I
   (processAll lower c now (processAll lower c now i (addrRecs lower c i Gen.typeA)).1
     (addrRecs lower c (processAll lower c now i (addrRecs lower c i Gen.typeA)).1 Gen.typeAaaa)).1
 
-/-- `_load_from_cache` (`info.py:724-752`): the SRV `get_by_details` returns, then the TXT, then --
+/-- `_load_from_cache` (`info.py:724-752`, with the D14 repair): the newest unexpired SRV, then the newest unexpired TXT, then --
 only when the SRV did not change the server key (else they were loaded by the SRV branch) -- every A
 and every AAAA of the server -/
 def loadInfo (lower : String → String) (c : Cache) (i : Info) (now : Int) : Info :=
